@@ -413,6 +413,10 @@ func (e *Eng) verifyFunc(fn *ssa.Function, sp *FuncSpec, known *knownFindings) *
 
 		}
 		for i, c := range sp.Ensures {
+			if c.Assumed {
+				r.assumed["postulate of "+sp.Name+" (used by callers, not checked against the body): "+c.Text] = true
+				continue
+			}
 			parent := &Obligation{Name: r.oblName(sp.Name + ":ensures:" + labelOr(c, i)), Kind: "ensures", Func: sp.Name, Text: c.Text, run: r, clause: c}
 			kf := known.match(parent)
 			ok := true
